@@ -132,13 +132,17 @@ func cvUnmarshalJSON(w string, b []byte) string {
 		e2 := y.UnmarshalJSON(in())
 		return cvAgree(cvObsNum(e1, fmt.Sprint(x)), cvObsNum(e2, fmt.Sprint(uint64(y))))
 	case "256":
-		var x uint256.Int
+		x := cvSentinel256() // a reused destination: every limb holds stale data
 		e1 := conv.Uint256Unmarshal(&x, in())
-		var y view.Uint256View
+		y := view.Uint256View(cvSentinel256())
 		e2 := y.UnmarshalJSON(in())
 		return cvAgree(cvObsNum(e1, cvU256Dec(&x)), cvObsNum(e2, cvU256Dec((*uint256.Int)(&y))))
 	}
 	panic("bad width " + w)
+}
+
+func cvSentinel256() uint256.Int {
+	return uint256.Int{cvSentinel, cvSentinel + 1, cvSentinel + 2, cvSentinel + 3}
 }
 
 func cvUnmarshalText(w string, b []byte) string {
@@ -157,7 +161,7 @@ func cvUnmarshalText(w string, b []byte) string {
 		y := view.Uint64View(cvSentinel)
 		return cvObsNum(y.UnmarshalText(in()), fmt.Sprint(uint64(y)))
 	case "256":
-		var y view.Uint256View
+		y := view.Uint256View(cvSentinel256())
 		return cvObsNum(y.UnmarshalText(in()), cvU256Dec((*uint256.Int)(&y)))
 	}
 	panic("bad width " + w)
@@ -645,7 +649,12 @@ func genC19(g *Gen, tier string, out *bufio.Writer) {
 
 	// 6. hex: every text length 0..80, with and without prefix, odd lengths, non-hex characters
 	for L := 0; L <= 80; L++ {
-		for _, pre := range []string{"", "0x", "0X", "0x0x", "x", "0", "00"} {
+		pres := []string{"", "0x", "0X", "0x0x", "x", "0", "00"}
+		if L <= 8 || L%8 == 0 || thorough {
+			// every pairing of prefix spellings, stray prefix letters, prefixes in other positions
+			pres = append(pres, "0x0X", "0X0x", "0X0X", "0x0x0x", "X", "0xx", "0xX", "0Xx", "x0", "0x0", "00x", "0x ", " 0x", "0x-", "0x+", "\\x")
+		}
+		for _, pre := range pres {
 			body := cvRandHexText(g, L)
 			text := append([]byte(pre), body...)
 			n := len(text)
